@@ -4,7 +4,7 @@
    asking the harness over the pipe. *)
 From Coq Require Import List NArith ZArith Bool Ascii String.
 From Authlib Require Import Base.Bytes Base.Base64 Base.BigEndian Base.PyVal.
-From Authlib Require Import Model.JWK Model.Claims Spec.ClaimsSpec Model.Resource.
+From Authlib Require Import Model.JWK Model.Claims Spec.ClaimsSpec Model.Resource Model.Scope.
 Import ListNotations.
 Open Scope string_scope.
 
@@ -122,6 +122,23 @@ Definition dispatch_resource (fn : string) (a : pv) : option pv :=
                            (norm_required (arg "roles" a)) (norm_required (arg "entitlements" a))))
   else None.
 
+Definition dispatch_scope (fn : string) (a : pv) : option pv :=
+  if String.eqb fn "issue" then
+    let gn := arg_s "grant" a in
+    let gr := if String.eqb gn "code" then GCode else if String.eqb gn "implicit" then GImplicit
+              else if String.eqb gn "password" then GPassword
+              else if String.eqb gn "client_credentials" then GClientCredentials
+              else if String.eqb gn "refresh" then GRefresh else if String.eqb gn "device" then GDevice
+              else GJwtBearer in
+    let tn := arg_s "generator" a in
+    let g := if String.eqb tn "bearer" then GenBearer else if String.eqb tn "jwt7523" then GenJwt7523 else GenJwt9068 in
+    Some (match issue gr g (arg_strs "supported" a) (arg_s "client_scope" a)
+                      (arg_opt_s "requested" a) (arg_opt_s "original" a) with
+          | Issued r e => PList [PStr "issued"; pv_of_ostr r; pv_of_ostr e]
+          | InvalidScope => PList [PStr "error"; PStr "invalid_scope"]
+          end)
+  else None.
+
 Definition dispatch (fn : string) (a : pv) : pv :=
   if String.eqb fn "oracle_echo" then oracle "echo" a else
   match dispatch_jwk fn a with
@@ -132,6 +149,9 @@ Definition dispatch (fn : string) (a : pv) : pv :=
   | None =>
   match dispatch_resource fn a with
   | Some r => r
+  | None =>
+  match dispatch_scope fn a with
+  | Some r => r
   | None => err ("unknown function " ++ fn)
-  end end end.
+  end end end end.
 End D.
